@@ -64,3 +64,10 @@ package integrationdiagram
 //@   ensures [all-statements-traversed] rangeindex + 1 >= len(stmts)
 //@   mark @after:sysl.(*Statement).GetStmt#1 kind
 //@   loop 0 step [every-call-and-container-visited] tagof(at("kind", callresult)) == typeid("*sysl.Statement_Call") || tagof(at("kind", callresult)) == typeid("*sysl.Statement_Cond") || tagof(at("kind", callresult)) == typeid("*sysl.Statement_Loop") || tagof(at("kind", callresult)) == typeid("*sysl.Statement_LoopN") || tagof(at("kind", callresult)) == typeid("*sysl.Statement_Foreach") || tagof(at("kind", callresult)) == typeid("*sysl.Statement_Group") ==> ghost("descended")
+
+// Every project view is built with the command-line exclude set plus its own `exclude` attribute, in a set of its own:
+// the command-line set is never written, so one view's excludes cannot leak into another view.
+//@ func GenerateIntegrations
+//@   maypanic
+//@   assert @call:integrationdiagram.MakeBuilderfromStmt [view-gets-command-line-and-own-excludes-in-a-new-set] arg2 != excludeStrSet && fresh(arg2) && forallstr(k, in(k, excludeStrSet) ==> in(k, arg2)) && forallstr(k, in(k, excludes) ==> in(k, arg2)) && arg1 == endpt.GetStmt()
+//@   loop 0 invariant [command-line-excludes-untouched] excludeStrSet != nil && fresh(excludeStrSet) && forallstr(k, in(k, excludeStrSet) == pre(in(k, excludeStrSet)))
